@@ -84,6 +84,8 @@ Definition thrB (g : glob) (u : nat) (l : loc) : Prop :=
       privR g z /\ cs_of g z = Some Constr /\ znd g z = None /\ znx g z = old /\
       exists w, hnd l = Some (w, None) /\ zown g z = Some (guard_of u w)
   | E_constr _ c _ z => privR g z /\ cs_of g z = Some Alloc /\ isnode g c = true
+  | E_ldb _ c _ z | E_ldn _ c _ _ z | E_s1 _ c _ _ _ z | E_s2 _ c _ _ _ z =>
+      privR g z /\ cs_of g z = Some Constr /\ zown g z = None /\ znd g z = Some c /\ isnode g c = true
   | E_ldz _ _ z | E_stz _ _ z _ =>
       privR g z /\ cs_of g z = Some Constr /\ zown g z = None /\ exists k, znd g z = Some k /\ isnode g k = true
   | E_cas _ _ z old =>
@@ -1283,6 +1285,25 @@ Proof.
   unfold zown, znd. rewrite V1, V2, V3, V4. cbn. repeat split; auto. exists w. subst h. split; reflexivity.
 Qed.
 
+(* the eraser's private, constructed record while it unlinks the node (repair eb66dd7: the record is built first) *)
+Definition eprivP (g : glob) (z c : nat) : Prop :=
+  privR g z /\ cs_of g z = Some Constr /\ zown g z = None /\ znd g z = Some c /\ isnode g c = true.
+Lemma eprivP_recsame g g' z c : recsame g g' None -> eprivP g z c -> eprivP g' z c.
+Proof.
+  intros S ([Q1 Q2] & Q3 & Q4 & Q5 & Q6).
+  assert (N : Some z <> None) by discriminate.
+  unfold eprivP, privR, zown, znd in *. rewrite (rs_zlog _ _ _ S), (rs_isrec _ _ _ S z N), (rs_grec _ _ _ S z N), (rs_cs _ _ _ S z N Q1).
+  repeat split; auto. apply (rs_isnode _ _ _ S); exact Q6.
+Qed.
+Lemma thrB_E_ldb g t pr it c nx0 z h its0 : thrB g t (Loc pr (E_constr it c nx0 z) h its0) ->
+  thrB (fst (do_construct g z (BRec (ZRec None None (Some c))))) t (Loc pr (E_ldb it c nx0 z) h its0).
+Proof.
+  unfold thrB, privR. cbn [at_]. intros ([Q1 Q2] & Q3 & Q4).
+  destruct (views_construct_rec g z (ZRec None None (Some c)) Q1 Q3) as (V1 & V2 & V3 & V4).
+  unfold zown, znd. rewrite V1, V2, V3, V4. cbn. repeat split; auto.
+  rewrite isnode_construct_rec by exact Q1. exact Q4.
+Qed.
+
 (* ---------- the step lemma ---------- *)
 Ltac recsame_tac :=
   repeat first [apply recsame_fault | apply recsame_misuse | apply recsame_mtx | apply recsame_head | apply recsame_tail
@@ -1356,6 +1377,15 @@ Proof.
             eapply (stepB_push g ls t _ _ z IA IB Hl); try reflexivity; cbn [at_ hnd];
             try tauto; rewrite ?priv_rec_body, ?rpc_body; try reflexivity;
             try apply thrB_body; try (intros; apply body_not_zf); try (intros; discriminate); try exact I).
+  all: try (apply thrB_E_ldb; exact Tt).
+  all: try (match goal with |- thrB ?gg _ (Loc _ (E_ldz _ _ _) _ _) =>
+              assert (EP : eprivP gg z c0);
+              [|destruct EP as (E1 & E2 & E3 & E4 & E5); unfold thrB; cbn [at_]; split; [exact E1|split; [exact E2|split; [exact E3|exists c0; auto]]]] end;
+              apply (eprivP_recsame g);
+              [repeat first [apply recsame_fault | apply recsame_commit | apply recsame_tail]; first [apply recsame_refl | apply recsame_setn; apply (wtarget_isnode g ls t _ _ IA Hl); reflexivity]|exact Tt]).
+  all: try (match goal with |- thrB ?gg _ _ =>
+              change (eprivP gg z c0); apply (eprivP_recsame g);
+              [repeat first [apply recsame_fault | apply recsame_commit]; apply recsame_setn; apply (wtarget_isnode g ls t _ _ IA Hl); reflexivity|exact Tt] end).
   all: try (destruct Tt as (T1 & T2 & T3 & T4 & T5)).
   all: try (rewrite T4; symmetry; exact Heqb).
   all: try (intros k Hk; rewrite T3 in Hk; discriminate).
